@@ -284,8 +284,16 @@ def main(argv):
                 n_obl -= 1          # reported separately: a known finding is neither discharged nor claimed
                 n_known_obl += 1
                 continue
+            ran_clean = (not native.get("error") and not native.get("skipped") and native.get("requires") is True
+                         and native.get("violated") == [] and "ensures" in native)
             if reproduced:
                 violations.append((ob["name"], path, ""))
+            elif ran_clean and not ob.get("inductive"):
+                # the solver's counterexample was run against the real code and the contract HOLDS on it: the engine's model of this
+                # (changed) code and CPython disagree, so the refutation is not believed - the function counts as outside the subset
+                # for this run and the bounded layer decides (on the unchanged tree every obligation is proved, so this cannot occur)
+                demoted.append({"function": r.target, "reason": "counterexample of %s does not reproduce natively (engine and CPython disagree on this code)" % ob["name"]})
+                undecided.append(ob["name"] + " (refuted by the solver, but the real code satisfies the contract on that input)")
             elif ob["name"] in lock:
                 violations.append((ob["name"], path, "no-failing-input-found"))
             elif native.get("error"):
